@@ -17,6 +17,7 @@ METHOD_RE = re.compile('^[A-Z0-9$-_.]{1,20}$')
 VERSION_RE = re.compile(r'^HTTP/(\d+).(\d+)$')
 STATUS_RE = re.compile(r'^(\d{3})(?:\s+([\s\w]*))$')
 HEADER_RE = re.compile('[\\x00-\\x1F\\x7F()<>@,;:/\\[\\]={} \\t\\\\"]')
+CTL_RE = re.compile('[\\x00\\r\\n]')
 
 # errors
 BAD_FIRST_LINE = 0
@@ -274,6 +275,8 @@ class HttpParser:
         self._method = bits[0].upper()
 
         # URI
+        if CTL_RE.search(bits[1]):
+            raise InvalidRequestLine('invalid character in request target')
         self._url = bits[1]
         parts = urlsplit(bits[1])
         self._scheme = parts.scheme or None
@@ -344,6 +347,8 @@ class HttpParser:
                     curr = curr[:-2]
                 value.append(curr)
             value = ''.join(value).rstrip()
+            if CTL_RE.search(value):
+                raise InvalidHeader('invalid header value %s' % name)
 
             # store new header value
             self._headers.add_header(name, value)
